@@ -2234,7 +2234,7 @@ func genModule(c *ctx, o wgenOpts) (*wmodule, map[string]int) {
 		t := g.valueTy()
 		name := fmt.Sprintf("gp%d", i)
 		gl := &wglobal{name: name, space: "private", ty: t}
-		if c.chance(0.5) && o.privInit && (t.k != "vec" || o.vecInit) {
+		if (c.chance(0.5) || o.negInit) && o.privInit && (t.k != "vec" || o.vecInit) {
 			gl.init = g.lit(t, !o.negInit)
 			if t.k == "vec" {
 				g.f("private-init-vector")
@@ -2247,6 +2247,11 @@ func genModule(c *ctx, o wgenOpts) (*wmodule, map[string]int) {
 			}
 			if hasNegLit(gl.init) {
 				g.f("private-init-negative")
+			}
+			if o.negInit && t.isScalar() && t.isInt() {
+				// `= 3i * 4i`: an operator expression over literals
+				gl.init = &wexpr{k: "bin", ty: t, op: c.pick("+", "*", "-"), args: []*wexpr{g.lit(t, true), g.lit(t, true)}, konst: true}
+				g.f("private-init-operator-expression")
 			}
 		} else if o.constInit && t.isScalar() {
 			for _, cs := range g.m.consts {
@@ -2683,6 +2688,17 @@ func hasSwzOfCompound(m *wmodule) bool {
 		}
 	})
 	return found
+}
+
+// hasOpInit: does a private global have an operator expression as initialiser (`var<private> g: i32 = 3i * 4i;`)?  The
+// decidable shape of the recorded MSL / GLSL defect: such an initialiser is left unevaluated.
+func hasOpInit(m *wmodule) bool {
+	for _, g := range m.globals {
+		if g.space == "private" && g.init != nil && g.init.k == "bin" {
+			return true
+		}
+	}
+	return false
 }
 
 // hasPackOperand: is a pack4xU8 / pack4xU8Clamp call a direct operand of an operator (binary, unary, comparison)?  The
